@@ -13,3 +13,8 @@ contract("codemodder.file_context.FileContext.get_all_findings", props=["C06", "
          functional=True, reads=["results", "finding"],
          ensures=[("exactly the findings of this file's results",
                    "all(iff(f in result, self.results is not None and any(r.finding is not None and r.finding == f for r in self.results)) for f in ANY('Finding'))")])
+
+# ---- a one-line recorder of a file context (add_changeset's parameter is called `result`, which the contract language reserves) ---------------------------------------------------------------------------------------
+contract("codemodder.file_context.FileContext.add_dependency", props=["C14"],
+         params={"self": "FileContext", "dependency": "Dependency"}, modifies=["self.dependencies"],
+         ensures=[("exactly this dependency is added to the file's set", "self.dependencies == old(self.dependencies) | {dependency}")])
